@@ -228,6 +228,10 @@ int antispoof_ingress(struct __sk_buff *skb) {
 			/* Strict mode: exact match required */
 			if (mode == ANTISPOOF_STRICT || mode == ANTISPOOF_LOG_ONLY) {
 				allowed = (src_ip == binding->ipv4_addr);
+			} else if (mode == ANTISPOOF_LOOSE) {
+				/* Loose mode validates against the allowed ranges whether or
+				 * not the sender also has a binding */
+				allowed = ip_in_allowed_range(src_ip);
 			}
 		} else if (mode == ANTISPOOF_LOOSE) {
 			/* Loose mode: check if in any allowed range */
